@@ -104,6 +104,11 @@ type Block struct {
 	AssumeKinds map[string]string // obligation kinds assumed in this unit, with the stated reason
 	LoopInvAll []*Clause // invariants of every loop (rules)
 	IsRule   bool
+	ClosureOf string // outer function header for closure blocks
+	ClosureIdx int
+	Captures []string // names of captured variables made available to clauses (after the closure's own parameters)
+	CaptureTypes []string
+	NClosureParams int
 	Exclude  map[string]bool
 	PropKinds map[string][]string // optional obligation-kind filter per property
 	FromRule *Block
@@ -121,6 +126,13 @@ type Block struct {
 }
 
 func (b *Block) QualName() string {
+	if b.ClosureOf != "" {
+		return b.qualNameBase() + fmt.Sprintf("$%d", b.ClosureIdx+1)
+	}
+	return b.qualNameBase()
+}
+
+func (b *Block) qualNameBase() string {
 	short := b.PkgName
 	if short == "" {
 		short = b.Pkg
@@ -401,6 +413,23 @@ func parseBlocks(fset *token.FileSet, path string, src []byte, pkgPath string) (
 				}
 				continue
 			}
+			if word == "closure" {
+				flush()
+				// //@ closure <k> of func <outer signature>
+				kstr, rest2 := splitWord(rest)
+				k, err := strconv.Atoi(kstr)
+				ofw, outer := splitWord(rest2)
+				if err != nil || ofw != "of" {
+					return nil, fmt.Errorf("%s:%d: closure <k> of func <signature>", path, line)
+				}
+				cur = &Block{Header: outer, Pkg: pkgPath, File: path, Line: line, Loops: map[int]*LoopSpec{}, Flags: map[string]bool{}, ClosureOf: outer, ClosureIdx: k}
+				if err := parseHeader(cur); err != nil {
+					return nil, fmt.Errorf("%s:%d: %v", path, line, err)
+				}
+				// the clause functions take the closure's parameters and captures, not the outer function's
+				cur.ParamNames, cur.ParamTypes, cur.ResNames, cur.ResTypes = nil, nil, nil, nil
+				continue
+			}
 			if word == "func" {
 				flush()
 				cur = &Block{Header: body, Pkg: pkgPath, File: path, Line: line, Loops: map[int]*LoopSpec{}, Flags: map[string]bool{}}
@@ -431,6 +460,30 @@ func parseBlocks(fset *token.FileSet, path string, src []byte, pkgPath string) (
 				return &Clause{Kind: kind, Text: expr, GoExpr: g, Loop: loop, File: path, Line: line, OnlyProps: onlyProps}, nil
 			}
 			switch word {
+			case "params", "captures", "results":
+				r := strings.TrimSpace(rest)
+				r = strings.TrimSuffix(strings.TrimPrefix(r, "("), ")")
+				for _, pv := range splitTopCommas(r) {
+					pv = strings.TrimSpace(pv)
+					if pv == "" {
+						continue
+					}
+					nm, ty := splitWord(pv)
+					switch word {
+					case "params":
+						cur.ParamNames = append(cur.ParamNames, nm)
+						cur.ParamTypes = append(cur.ParamTypes, ty)
+						cur.NClosureParams++
+					case "captures":
+						cur.Captures = append(cur.Captures, nm)
+						cur.CaptureTypes = append(cur.CaptureTypes, ty)
+						cur.ParamNames = append(cur.ParamNames, nm)
+						cur.ParamTypes = append(cur.ParamTypes, ty)
+					case "results":
+						cur.ResNames = append(cur.ResNames, nm)
+						cur.ResTypes = append(cur.ResTypes, ty)
+					}
+				}
 			case "fuel":
 				n, err := strconv.Atoi(strings.TrimSpace(rest))
 				if err != nil {
@@ -995,6 +1048,12 @@ func Load(repo string, patterns []string) (*Loaded, error) {
 			continue
 		}
 		fn := lookupFunc(prog, sp, b)
+		if fn != nil && b.ClosureOf != "" {
+			if b.ClosureIdx >= len(fn.AnonFuncs) {
+				return nil, fmt.Errorf("%s:%d: %s has no closure #%d", b.File, b.Line, b.Header, b.ClosureIdx)
+			}
+			fn = fn.AnonFuncs[b.ClosureIdx]
+		}
 		if fn == nil {
 			return nil, fmt.Errorf("%s:%d: contract target not found in SSA: %s", b.File, b.Line, b.Header)
 		}
